@@ -132,6 +132,96 @@ type TrMap struct {
 	V int
 }
 
+// tagged and untagged transform types side by side in one struct
+type TwoTr struct {
+	A TrNum
+	B KeyStruct
+	C TrBytes
+	D TrComp
+	E TrNum
+}
+
+// more mapped fields than bits in a machine word
+type Wide struct {
+	F00 int
+	F01 int
+	F02 int
+	F03 int
+	F04 int
+	F05 int
+	F06 int
+	F07 int
+	F08 int
+	F09 int
+	F10 int
+	F11 int
+	F12 int
+	F13 int
+	F14 int
+	F15 int
+	F16 int
+	F17 int
+	F18 int
+	F19 int
+	F20 int
+	F21 int
+	F22 int
+	F23 int
+	F24 int
+	F25 int
+	F26 int
+	F27 int
+	F28 int
+	F29 int
+	F30 int
+	F31 int
+	F32 int
+	F33 int
+	F34 int
+	F35 int
+	F36 int
+	F37 int
+	F38 int
+	F39 int
+	F40 int
+	F41 int
+	F42 int
+	F43 int
+	F44 int
+	F45 int
+	F46 int
+	F47 int
+	F48 int
+	F49 int
+	F50 int
+	F51 int
+	F52 int
+	F53 int
+	F54 int
+	F55 int
+	F56 int
+	F57 int
+	F58 int
+	F59 int
+	F60 int
+	F61 int
+	F62 int
+	F63 int
+	F64 int
+	F65 int
+	F66 int
+	F67 int
+	F68 int
+	F69 int
+}
+
+// transformed to integers of different widths (the receive type of the unmarshal transform is int16 / int8)
+type TrW struct{ V int16 }
+type TrN struct{ V int8 }
+
+// a registered (tagged, transformed) type whose Go kind is a byte array
+type Digest [4]byte
+
 // transformed to a byte slice: the serial form of the zero value is null
 type TrOpt struct{ B []byte }
 
@@ -190,6 +280,22 @@ var transforms = []trPair{
 	{7,
 		func(t TrOpt) ([]byte, error) { return t.B, nil },
 		func(b []byte) (TrOpt, error) { return TrOpt{b}, nil }},
+	{8,
+		func(t TrW) (int16, error) { return t.V, nil },
+		func(v int16) (TrW, error) { return TrW{v}, nil }},
+	{9,
+		func(t TrN) (int8, error) { return t.V, nil },
+		func(v int8) (TrN, error) { return TrN{v}, nil }},
+	{10,
+		func(d Digest) (string, error) { return string(d[:]), nil },
+		func(s string) (Digest, error) {
+			var d Digest
+			if len(s) != 4 {
+				return d, fmt.Errorf("want 4 bytes")
+			}
+			copy(d[:], s)
+			return d, nil
+		}},
 }
 
 // ---------------------------------------------------------------- type registry
@@ -331,7 +437,10 @@ func buildAtlases() {
 	trFuncID[reflect.TypeOf(TrSq{})] = 5
 	trFuncID[reflect.TypeOf(TrMap{})] = 6
 	trFuncID[reflect.TypeOf(TrOpt{})] = 7
-	structs := []interface{}{Inner{}, WithPtr{}, Emb{}, Rec{}, Tagged{}, OmitAll{}, Nums{}, HasShape{}, HasNoAtlas{}, MapKeyed{}, TwoMaps{}, Circle{}, Square{}}
+	trFuncID[reflect.TypeOf(TrW{})] = 8
+	trFuncID[reflect.TypeOf(TrN{})] = 9
+	trFuncID[reflect.TypeOf(Digest{})] = 10
+	structs := []interface{}{Inner{}, WithPtr{}, Emb{}, Rec{}, Tagged{}, OmitAll{}, Nums{}, HasShape{}, HasNoAtlas{}, MapKeyed{}, TwoMaps{}, TwoTr{}, Wide{}, Circle{}, Square{}}
 	mk := func(id int, sort atlas.KeySortMode, mode atlas.KeySortMode, tags bool, extra ...*atlas.AtlasEntry) {
 		var es []*atlas.AtlasEntry
 		tag := 100
@@ -345,11 +454,11 @@ func buildAtlases() {
 		}
 		circle, square := es[len(es)-2], es[len(es)-1]
 		es = append(es, atlas.BuildEntry((*Shape)(nil)).KeyedUnion().Of(map[string]*atlas.AtlasEntry{"circle": circle, "sq": square}))
-		tt, sqTag, optTag := -1, -1, -1
+		tt, sqTag, optTag, wTag, nTag, dTag := -1, -1, -1, -1, -1, -1
 		if tags {
-			tt, sqTag, optTag = 23, 25, 27
+			tt, sqTag, optTag, wTag, nTag, dTag = 23, 25, 27, 28, 29, 30
 		}
-		es = append(es, trEntry(KeyStruct{}, 1, -1), trEntry(TrNum(0), 2, tt), trEntry(TrBytes{}, 3, tt+1), trEntry(TrComp{}, 4, -1), trEntry(TrSq{}, 5, sqTag), trEntry(TrMap{}, 6, -1), trEntry(TrOpt{}, 7, optTag))
+		es = append(es, trEntry(KeyStruct{}, 1, -1), trEntry(TrNum(0), 2, tt), trEntry(TrBytes{}, 3, tt+1), trEntry(TrComp{}, 4, -1), trEntry(TrSq{}, 5, sqTag), trEntry(TrMap{}, 6, -1), trEntry(TrOpt{}, 7, optTag), trEntry(TrW{}, 8, wTag), trEntry(TrN{}, 9, nTag), trEntry(Digest{}, 10, dTag))
 		es = append(es, extra...)
 		a := atlas.MustBuild(es...).WithMapMorphism(atlas.MapMorphism{KeySortMode: sort})
 		atlases = append(atlases, &atlasCfg{id: id, atl: a, entries: es, nReg: len(es), sort: sort})
@@ -365,10 +474,12 @@ func buildAtlases() {
 		IgnoreKey("legacy").
 		AddField("X", atlas.StructMapEntry{SerialName: "ex"}).Complete()
 	mm := atlas.BuildEntry(StrMap{}).MapMorphism().SetKeySortMode(atlas.KeySortMode_RFC7049).Complete()
+	// a per-type morphism on the unnamed type untyped maps have
+	mmU := atlas.BuildEntry(map[string]interface{}{}).MapMorphism().SetKeySortMode(atlas.KeySortMode_RFC7049).Complete()
 	{
 		save := structs
-		structs = []interface{}{Inner{}, WithPtr{}, Rec{}, Tagged{}, OmitAll{}, Nums{}, HasShape{}, HasNoAtlas{}, MapKeyed{}, TwoMaps{}, Circle{}, Square{}}
-		mk(3, atlas.KeySortMode_Strings, atlas.KeySortMode_Strings, true, embEntry, mm)
+		structs = []interface{}{Inner{}, WithPtr{}, Rec{}, Tagged{}, OmitAll{}, Nums{}, HasShape{}, HasNoAtlas{}, MapKeyed{}, TwoMaps{}, TwoTr{}, Wide{}, Circle{}, Square{}}
+		mk(3, atlas.KeySortMode_Strings, atlas.KeySortMode_Strings, true, embEntry, mm, mmU)
 		structs = save
 	}
 	// 4: like 1 plus an entry for the struct reached through an embedded pointer
@@ -470,7 +581,7 @@ func rootTypes() []reflect.Type {
 		float32(0), float64(0), []byte{}, MyInt(0), MyI8(0), MyI16(0), MyU16(0), MyU32(0), MyStr(""), MyBool(false), MyF32(0), MyBytes{},
 		Arr4{}, Arr0{}, [3]byte{}, []MyByte{}, [2]MyByte{},
 		Inner{}, WithPtr{}, Emb{}, EmbPtr{}, Rec{}, Tagged{}, OmitAll{}, Nums{}, KeyStruct{}, TrNum(0), TrBytes{}, TrComp{}, HasShape{},
-		NoAtlas{}, HasNoAtlas{}, MapKeyed{}, MapInt{}, StrMap{}, Circle{}, Square{}, TwoMaps{}, TrSq{}, []TrSq{}, map[string]TrSq{}, TrMap{}, []TrMap{}, map[string]TrMap{}, [2]TrMap{}, TrOpt{}, []TrOpt{}, map[string]NoAtlas{}, map[string][]NoAtlas{}, []map[string]int{}, (*int64)(nil), []int64{}, [2][]byte{}, [1]*[4]byte{}, [2]interface{}{}, [2]map[string]int{}, [2][]int{},
+		NoAtlas{}, HasNoAtlas{}, MapKeyed{}, MapInt{}, StrMap{}, Circle{}, Square{}, TwoMaps{}, TrSq{}, []TrSq{}, map[string]TrSq{}, TrMap{}, []TrMap{}, map[string]TrMap{}, [2]TrMap{}, TrOpt{}, []TrOpt{}, TwoTr{}, Wide{}, TrW{}, TrN{}, []TrW{}, []TrN{}, Digest{}, []Digest{}, map[string]Digest{}, map[string]NoAtlas{}, map[string][]NoAtlas{}, []map[string]int{}, (*int64)(nil), []int64{}, [2][]byte{}, [1]*[4]byte{}, [2]interface{}{}, [2]map[string]int{}, [2][]int{},
 		[]int{}, []string{}, [2]string{}, [0]int{}, [][]int{}, []*int{}, []interface{}{}, map[string]int{}, map[string]interface{}{},
 		map[string][]byte{}, map[string]map[string]string{}, map[KeyStruct]string{}, map[TrNum]int{}, map[int]int{}, map[MyStr]int{},
 		(*int)(nil), (**string)(nil), (*[]int)(nil), (*Inner)(nil), (***Inner)(nil), (*interface{})(nil), []*Inner{}, map[string]*Rec{},
